@@ -171,6 +171,7 @@ let handle (line : string) : string =
   | ["ENCB"; set; s] -> hex_of_str (percentEncodeBytes (str_of_hex s) (set_of set))
   | ["DE"; set; s] -> (match decodeEncode (str_of_hex s) (set_of set) with Some r -> hex_of_str r | None -> "FUEL")
   | ["RD"; s] -> (match repeatedDecode (str_of_hex s) with Some r -> hex_of_str r | None -> "FUEL")
+  | ["RD1"; s] -> hex_of_str (repeatedDecode1 (str_of_hex s))
   | ["TOASCII"; c; s] -> let c = Hashtbl.find cfgs c in
     (match toASCII idna c (str_of_hex s) with Some a -> "ok " ^ hex_of_str a | None -> "err")
   | ["SPI"; c; q] -> let c = Hashtbl.find cfgs c in
